@@ -17,14 +17,62 @@ CLAIM = {
             'C01 model emits (d_min proved minimal over ALL pairs: 2 sin(pi/M) for PSK, one grid step 2/e for QAM), '
             'the QAM coefficient being the mean per-axis neighbour count. The formulas are tied to fundamental.py '
             'by comparing coefficient and Q-argument (model, Float) with the methods\' outputs over -30..60 dB for '
-            'every order, with Q = 0.5 erfc(x/sqrt 2) from math.erfc, and d_min measured on Modulator.symbols.',
+            'every order, with Q = 0.5 erfc(x/sqrt 2) from math.erfc, and d_min measured on Modulator.symbols. '
+            'Robustness classes: (R15) the model curves are STRICTLY decreasing in SNR for a strictly decreasing Q - '
+            'proved for the Gaussian tail itself - so distinct SNR values / packet lengths never share a value '
+            '(Properties/C16Robust.lean); on the code, clusters of close-but-distinct SNR values, packet lengths and '
+            'qfunc / dB2Linear arguments each get the first-principles value of THAT value to the conditioning of Q '
+            '(16 eps (4+arg^2), no absolute floor) and are told apart. (R16) a caller refilling ONE argument array in '
+            'place, passing dropped temporaries or one array in two roles gets the pure function of the contents at '
+            'call time and earlier results never change (call machine Model/CallsC16.lean + histories on the code).',
     'note': 'Partial: Q is abstract (IsQ: antitone, Q 0 = 1/2, >= 0, -> 0); that the formulas are the exact AWGN '
             'error rates for BPSK/QAM and a bound within [exact, 2 exact] for PSK is a statement about Gaussian '
             'integrals and is NOT proved - only its algebraic half (formula structure vs constellation geometry). '
             'Order relations are compared in binary64 with absolute slack 2^-52 (1-(1-P)^2 cancels to 0.0 for '
-            'P < 2^-53 while 2P/k > 0). scipy.special.erfc is an oracle checked against math.erfc.',
+            'P < 2^-53 while 2P/k > 0). scipy.special.erfc is an oracle checked against math.erfc. The R15 / R16 '
+            'theorems live in PyPhysim.Properties.C16Robust (built and axiom-audited by the check as a second module); '
+            'the tight R15 references use the exact family geometry (2 sin(pi/M), sqrt(6/(M-1))) after confirming the '
+            'emitted symbols have it to 1e-9; PER is compared to -expm1(L log1p(-BER)) within (L+2) 2^-53 absolute, the '
+            'rounding of the documented formula 1-(1-BER)**L itself.',
 }
 SLACK = 2.0 ** -52
+# theorems of the robustness classes R15 / R16 (a module of their own; built and audited like MODULE)
+EXTRA_MODULE = 'PyPhysim.Properties.C16Robust'
+
+
+def prove_extra(ctx):
+    """build EXTRA_MODULE, scan its import closure for forbidden constructs, audit the axioms of its theorems"""
+    import os
+    if not os.path.exists(os.path.join(core.LEAN_DIR, EXTRA_MODULE.replace('.', '/') + '.lean')):
+        ctx.tie_broken('theorem', EXTRA_MODULE, 'module is missing')
+        return
+    names = core.theorem_names(EXTRA_MODULE)
+    ctx.obligations += len(names)
+    ok, out = core.lake_build([EXTRA_MODULE])
+    if not ok:
+        ctx.tie_broken('theorem', EXTRA_MODULE, 'lake build failed:\n' + out[-1500:])
+        return
+    hits = core.forbidden_scan(core.import_closure([EXTRA_MODULE]))
+    if hits:
+        ctx.tie_broken('audit', 'forbidden-construct', '\n'.join(hits))
+    res, missing, raw = core.audit_axioms(EXTRA_MODULE, ctx.scratch)
+    good = 0
+    for n in names:
+        ax = res.get(n)
+        ctx.theorems[n] = ax
+        if ax is None:
+            ctx.tie_broken('audit', n, 'no #print axioms output: ' + raw[-500:])
+        elif not set(ax) <= core.ALLOWED_AXIOMS:
+            ctx.tie_broken('audit', n, 'axioms ' + ','.join(ax))
+        else:
+            good += 1
+    if not any(b['kind'] == 'tie' for b in ctx.broken):
+        ctx.discharged += good
+    if ctx.tier == 'thorough':
+        rc, out = core.run(['lake', 'env', 'leanchecker', EXTRA_MODULE], cwd=core.LEAN_DIR, timeout=3000)
+        ctx.extra['leanchecker:' + EXTRA_MODULE] = 'ok' if rc == 0 else 'failed'
+        if rc != 0:
+            ctx.tie_broken('audit', 'leanchecker:' + EXTRA_MODULE, out[-1500:])
 
 
 def _f():
@@ -235,7 +283,359 @@ def o_calls(case):
     return None
 
 
-ORACLES = {'offsets': o_offsets, 'calls': o_calls, 'curves': o_curve, 'limit': o_limit, 'qfunc': o_qfunc}
+# --------------------------------------------------------------- R15 / R16 (values that are merely close; argument identity)
+EPS = 2.0 ** -52
+TINY = [0.0, 1e-15, -1e-15, 1e-13, 4e-13, 1e-12, 4e-12, 1e-9, -1e-9, 5e-9, 1e-8, -1e-8]
+
+
+def cond_tol(arg):
+    """relative tolerance of a value c*Q(arg) computed in binary64: Q has relative condition number ~ arg^2
+    (d ln Q / d ln x -> x^2), so one rounding of the argument moves the value by about eps*arg^2.  Measured on
+    the unchanged tree: <= 1.5 eps arg^2 over -30..60 dB for every modulator; 16x head room, nothing absolute."""
+    return 16.0 * EPS * (4.0 + arg * arg)
+
+
+def tight(v, ref, tol):
+    """relative comparison; below the normal range of binary64 (Q underflows beyond arg ~ 37) only 'negligible'"""
+    if not (v == v):
+        return False
+    if abs(ref) < 1e-290:
+        return abs(v) < 1e-280
+    return abs(v - ref) <= tol * abs(ref)
+
+
+_GEOM = {}
+
+
+def geometry(kind, M):
+    """minimum distance of the family's unit-energy constellation from first principles (antipodal pair: 2;
+    M points on the unit circle: chord 2 sin(pi/M); L x L grid of step h with mean energy 2(L^2-1)h^2/12 = 1:
+    h = sqrt(6/(M-1))) -- after confirming, once per modulator, that the emitted `symbols` have it.  The tight
+    comparisons below use the exact value: a distance measured on binary64 coordinates carries a relative error
+    of about eps/d, which Q amplifies by arg^2 (for 1024-PSK more than the effect that is being looked for)."""
+    if (kind, M) not in _GEOM:
+        d = 2.0 if kind == 'BPSK' else 2.0 * math.sin(math.pi / M) if kind in ('PSK', 'QPSK') else math.sqrt(6.0 / (M - 1.0))
+        _GEOM[(kind, M)] = (d, dmin_of(make(kind, M).symbols))
+    return _GEOM[(kind, M)]
+
+
+def geometry_bad(kind, M):
+    d, measured = geometry(kind, M)
+    if not rel_close(d, measured, 1e-9):
+        return 'dmin-of-emitted-constellation:' + kind, 'M=%d: measured %r, the family has %r' % (M, measured, d)
+    return None
+
+
+def implied(kind, M, d, s):
+    """(SER implied by a constellation of minimum distance d at Es/N0 = s dB, argument of Q) -- from first
+    principles: sigma^2 = 1/(2 gamma) per real dimension, nearest-neighbour structure of the family"""
+    g = 10.0 ** (s / 10.0)
+    arg = d / (2.0 * math.sqrt(1.0 / (2.0 * g)))
+    q = Qf(arg)
+    if kind == 'BPSK':
+        return q, arg
+    if kind in ('PSK', 'QPSK'):
+        return 2.0 * q, arg
+    p = 2.0 * (1.0 - 1.0 / math.sqrt(M)) * q
+    return 1.0 - (1.0 - p) ** 2, arg
+
+
+def per_ref(ber, L):
+    """1-(1-BER)^L evaluated without the cancellation of the literal formula"""
+    return -math.expm1(L * math.log1p(-ber)) if ber < 1.0 else 1.0
+
+
+def per_tol(ref, L):
+    """the documented formula 1-(1-BER)**L rounds 1-BER to 2^-53 relative and raises it to the L-th power: an
+    absolute error of about (L+2) 2^-53 is binary64 behaviour of the formula itself (DESIGN C16, 'Limits')"""
+    return 1e-12 * abs(ref) + (L + 2.0) * 2.0 ** -53
+
+
+def close_cluster(s):
+    """distinct legitimate SNR values which np.isclose (atol 1e-8, rtol 1e-5), a key rounded to 6..12 decimals
+    or an absolute threshold 1e-8 would identify with s"""
+    if s == 0.0:
+        return list(TINY)
+    return [s, math.nextafter(s, math.inf), s + 1e-12, s - 3e-12, s + 1e-9, s + 4e-9, s - 9e-9,
+            s * (1 - 1e-6), s * (1 - 4e-6), s * (1 - 9e-6)]
+
+
+def o_close(case):
+    """R15: SNR values / packet lengths that are distinct but merely close (scalars one after the other on ONE
+    long-lived object, then all of them in one array): every value gets exactly the rates of a first-principles
+    computation for THAT value -- the SER implied by the emitted constellation, BER/PER/SE of a fresh object /
+    of their definitions -- to within the rounding of the formula (cond_tol), which separates the values"""
+    kind, M = case['kind'], case['M']
+    vals = [float(v) for v in case['snr']]
+    g = geometry_bad(kind, M)
+    if g:
+        return g
+    m = make(kind, M)
+    fresh = make(kind, M)
+    d = geometry(kind, M)[0]
+    k = kbits(M)
+    sref, bref, args = [], [], []
+    for s in vals:
+        e, a = implied(kind, M, d, s)
+        sref.append(e)
+        args.append(a)
+        bref.append(float(make(kind, M).calcTheoreticalBER(s)) if case.get('fresh_each') else
+                    float(fresh.calcTheoreticalBER(s)))
+    extra = 4 * SLACK if kind == 'QAM' else 0.0   # 1-(1-P)^2 of the code cancels: absolute 2^-52 (see CLAIM)
+
+    def bad(n, i, v):
+        if n == 'SER':
+            ok = tight(v, sref[i], cond_tol(args[i])) or abs(v - sref[i]) <= extra
+        else:
+            ok = tight(v, bref[i], cond_tol(args[i]))   # scalar and array pow / erfc may round differently
+            # the bit error rate of a value lies in the band the property states, around the implied SER
+            if bref[i] < 1e-290:     # Q underflows (arg > 37): only 'negligible' is comparable
+                ok = ok and 0.0 <= v < 1e-280
+            else:
+                ok = ok and v <= sref[i] * (1 + cond_tol(args[i])) + extra and sref[i] <= k * v * (1 + cond_tol(args[i])) + extra
+        return not ok
+
+    order = list(range(len(vals)))
+    for idxs, tag in ((order, 'scalar'), (order[::-1], 'scalar-reversed')):
+        for i in idxs:
+            for n in ('SER', 'BER'):
+                v = float(getattr(m, 'calcTheoretical' + n)(vals[i]))
+                if bad(n, i, v):
+                    return 'R15:snr:%s:%s:%s' % (n, kind, tag), 'snr=%r (neighbours %r): %s=%r, for this value %r' % (
+                        vals[i], vals[max(0, i - 1):i + 2], n, v, (sref if n == 'SER' else bref)[i])
+    arr = np.array(vals, dtype=float)
+    for obj, tag in ((m, 'array'), (make(kind, M), 'array-fresh')):
+        for n in ('SER', 'BER'):
+            out = np.asarray(getattr(obj, 'calcTheoretical' + n)(arr.copy()), dtype=float)
+            if out.shape != arr.shape:
+                return 'R15:snr:%s:%s:%s' % (n, kind, tag), 'shape %r' % (out.shape,)
+            for i in order:
+                if bad(n, i, float(out[i])):
+                    return 'R15:snr:%s:%s:%s' % (n, kind, tag), 'snr[%d]=%r in %r: %s=%r, for this value %r' % (
+                        i, vals[i], vals, n, float(out[i]), (sref if n == 'SER' else bref)[i])
+    # packet lengths that are close (L, L+1, L(1+1e-6)): each gives the PER / SE of ITS length
+    bits = math.log2(M)
+    for L in case.get('lengths', []):
+        for obj in (m, make(kind, M)):
+            per = np.asarray(obj.calcTheoreticalPER(arr.copy(), L), dtype=float)
+            se = np.asarray(obj.calcTheoreticalSpectralEfficiency(arr.copy(), L), dtype=float)
+            for i in order:
+                want = per_ref(bref[i], L)
+                if not abs(float(per[i]) - want) <= per_tol(want, L):
+                    return 'R15:length:PER:' + kind, 'snr=%r L=%r: PER=%r, 1-(1-BER)^L=%r' % (vals[i], L, float(per[i]), want)
+                if not abs(float(se[i]) - bits * (1.0 - want)) <= bits * per_tol(want, L) + 1e-12 * bits:
+                    return 'R15:length:SE:' + kind, 'snr=%r L=%r: SE=%r, K(1-PER)=%r' % (vals[i], L, float(se[i]), bits * (1 - want))
+        for i in (0, len(vals) - 1):
+            v = float(m.calcTheoreticalPER(vals[i], L))
+            want = per_ref(bref[i], L)
+            if not abs(v - want) <= per_tol(want, L):
+                return 'R15:length:PER:%s:scalar' % kind, 'snr=%r L=%r: PER=%r, 1-(1-BER)^L=%r' % (vals[i], L, v, want)
+    return None
+
+
+def separated(case):
+    """number of pairs of the case which the oracle tells apart: reference values further apart than 4 tolerances
+    (the margin is computed from the first-principles values, not from the implementation)"""
+    kind, M = case['kind'], case['M']
+    d = geometry(kind, M)[0]
+    r = [implied(kind, M, d, float(s)) for s in case['snr']]
+    n = 0
+    for i in range(len(r)):
+        for j in range(i):
+            (a, x), (b, y) = r[i], r[j]
+            if min(a, b) > 1e-290 and abs(a - b) > 4 * max(cond_tol(x), cond_tol(y)) * max(a, b) \
+                    and abs(float(case['snr'][i]) - float(case['snr'][j])) <= 1e-8 + 1e-5 * abs(float(case['snr'][j])):
+                n += 1
+    return n
+
+
+def separated_lengths(case):
+    """number of (SNR value, close pair of packet lengths) whose packet error rates the oracle tells apart"""
+    kind, M = case['kind'], case['M']
+    m = make(kind, M)
+    n = 0
+    for s in case['snr']:
+        b = float(m.calcTheoreticalBER(float(s)))
+        for L1 in case.get('lengths', []):
+            for L2 in case.get('lengths', []):
+                if L1 < L2 and near(L1, L2) and abs(per_ref(b, L1) - per_ref(b, L2)) > 4 * (
+                        per_tol(per_ref(b, L1), L1) + per_tol(per_ref(b, L2), L2)):
+                    n += 1
+    return n
+
+
+def o_closefn(case):
+    """R15 for the two library functions under the curves: qfunc and dB2Linear at close-but-distinct arguments
+    (scalars in sequence, then one array): each value gets 0.5 erfc(x/sqrt 2) resp. 10^(v/10) of ITS argument"""
+    from pyphysim.util.conversion import dB2Linear
+    from pyphysim.util.misc import qfunc
+    xs = [float(x) for x in case['x']]
+    fn, ref, tol = {'qfunc': (qfunc, Qf, cond_tol),
+                    'dB2Linear': (dB2Linear, lambda v: 10.0 ** (v / 10.0), lambda v: 8 * EPS * (2.0 + abs(v)))}[case['fn']]
+    outs = [[float(fn(x)) for x in xs], [float(fn(x)) for x in xs[::-1]][::-1],
+            [float(v) for v in np.asarray(fn(np.array(xs)), dtype=float)]]
+    for tag, out in zip(('scalar', 'scalar-reversed', 'array'), outs):
+        for x, v in zip(xs, out):
+            if not tight(v, ref(x), tol(x)):
+                return 'R15:%s:%s' % (case['fn'], tag), '%s(%r)=%r, for this value %r (arguments %r)' % (case['fn'], x, v, ref(x), xs)
+    return None
+
+
+CALLS = {'SER': lambda m, x, L: m.calcTheoreticalSER(x), 'BER': lambda m, x, L: m.calcTheoreticalBER(x),
+         'PER': lambda m, x, L: m.calcTheoreticalPER(x, L), 'SE0': lambda m, x, L: m.calcTheoreticalSpectralEfficiency(x),
+         'SE': lambda m, x, L: m.calcTheoreticalSpectralEfficiency(x, L)}
+
+
+def alloc(shape, dtype, layout):
+    """the caller's preallocated argument buffer: its own array, or a strided window of a larger work area"""
+    n = int(np.prod(shape)) if shape else 1
+    if layout == 'view':
+        big = np.zeros(2 * n + 3, dtype=dtype)
+        return big[1:1 + 2 * n:2].reshape(shape) if shape else np.zeros((), dtype=dtype)
+    return np.zeros(shape, dtype=dtype)
+
+
+def outcome(f):
+    try:
+        return 'ok', f()
+    except Exception as e:  # identity must not matter for rejections either
+        return 'raise:' + type(e).__name__, None
+
+
+def o_refill(case):
+    """R16: the caller keeps ONE argument array and refills it in place before every call (same object, new
+    contents), passes a just-dropped temporary (its id is reused), overwrites the argument right after the call,
+    and uses one array in two roles.  The k-th result equals what a fresh modulator returns for a copy of the
+    contents at call time (and the SER those contents imply); no earlier result changes afterwards; results
+    alias neither the argument nor each other; the argument is not modified."""
+    kind, M = case['kind'], case['M']
+    dt, shape = case['dtype'], tuple(case['shape'])
+    objs = [make(kind, M) for _ in range(case.get('objects', 1))]
+    buf = alloc(shape, dt, case.get('layout', 'own'))
+    g = geometry_bad(kind, M)
+    if g:
+        return g
+    d = geometry(kind, M)[0]
+    kept = []
+    cls = '%s:%s:%s' % (kind, dt, 'x'.join(map(str, shape)) or '0d')
+    for k, st in enumerate(case['history']):
+        m = objs[st.get('obj', 0) % len(objs)]
+        fill = np.array(st['fill'], dtype=dt).reshape(shape)
+        if st.get('arg', 'buffer') == 'temp':
+            x = np.array(fill)            # a temporary: dropped after the call, the next one reuses its address
+        else:
+            buf[...] = fill               # same object, new contents
+            x = buf
+        contents = np.array(x, copy=True)
+        L = st.get('L', 1)
+        r = CALLS[st['call']](m, x, L)
+        ref = CALLS[st['call']](make(kind, M), np.array(contents, copy=True), L)
+        ra, fa = np.asarray(r, dtype=float), np.asarray(ref, dtype=float)
+        if ra.shape != fa.shape or not np.allclose(ra, fa, rtol=1e-12, atol=0.0):
+            return 'R16:result-not-of-current-contents:%s:%s' % (st['call'], cls), \
+                'call %d (%s, argument %s): contents %r give %r, a fresh modulator gives %r for a copy' % (
+                    k, st['call'], st.get('arg', 'buffer'), contents.tolist(), ra.tolist(), fa.tolist())
+        if st['call'] == 'SER' and dt == 'float64':
+            for s, v in zip(contents.ravel().tolist(), ra.ravel().tolist()):
+                e, a = implied(kind, M, d, s)
+                if not (tight(v, e, cond_tol(a)) or abs(v - e) <= (4 * SLACK if kind == 'QAM' else 0.0)):
+                    return 'R16:ser-not-implied-by-contents:' + cls, 'call %d: snr=%r ser=%r implied=%r' % (k, s, v, e)
+        if not np.array_equal(x, contents):
+            return 'R16:argument-modified:%s:%s' % (st['call'], cls), 'call %d changed its SNR argument' % k
+        if isinstance(r, np.ndarray):
+            if np.shares_memory(r, x):
+                return 'R16:result-aliases-argument:%s:%s' % (st['call'], cls), 'call %d' % k
+            for j, (old, _) in enumerate(kept):
+                if isinstance(old, np.ndarray) and np.shares_memory(r, old):
+                    return 'R16:result-aliases-earlier-result:%s:%s' % (st['call'], cls), 'calls %d and %d' % (j, k)
+        kept.append((r, np.array(ra, copy=True)))
+        # an equal-content but different array object gives the same values again
+        r2 = np.asarray(CALLS[st['call']](m, np.array(contents, copy=True), L), dtype=float)
+        if r2.shape != ra.shape or not np.allclose(r2, ra, rtol=1e-12, atol=0.0):
+            return 'R16:equal-contents-different-object:%s:%s' % (st['call'], cls), \
+                'call %d repeated with a copy of the argument: %r, then %r' % (k, ra.tolist(), r2.tolist())
+        # the caller reuses the argument at once
+        if st.get('arg', 'buffer') == 'temp':
+            del x
+        else:
+            buf[...] = np.array(59 if k % 2 else -29, dtype=dt)
+        for j, (old, snap) in enumerate(kept):
+            if not np.array_equal(np.asarray(old, dtype=float), snap):
+                return 'R16:earlier-result-changed:' + cls, 'result of call %d changed after call %d / after the ' \
+                    'argument was overwritten' % (j, k)
+    return None
+
+
+def o_roles(case):
+    """R16: ONE array object passed in two roles -- SNR (in dB) and packet length -- behaves as two equal arrays"""
+    kind, M = case['kind'], case['M']
+    v = np.array(case['values'], dtype=case['dtype']).reshape(tuple(case['shape']))
+    for name in ('PER', 'SE'):
+        x = np.array(v, copy=True)
+        a = outcome(lambda: CALLS[name](make(kind, M), x, x))
+        b = outcome(lambda: CALLS[name](make(kind, M), np.array(v, copy=True), np.array(v, copy=True)))
+        if a[0] != b[0]:
+            return 'R16:two-roles:%s:%s' % (name, kind), 'same object: %s, two equal arrays: %s' % (a[0], b[0])
+        if a[0] == 'ok':
+            ra, rb = np.asarray(a[1], dtype=float), np.asarray(b[1], dtype=float)
+            if ra.shape != rb.shape or not np.allclose(ra, rb, rtol=1e-12, atol=0.0):
+                return 'R16:two-roles:%s:%s' % (name, kind), 'values %r: same object %r, two equal arrays %r' % (
+                    v.tolist(), ra.tolist(), rb.tolist())
+            if v.size == 1:   # and it is the value of the definition for an integer packet length
+                s = float(v.ravel()[0])
+                L = int(v.ravel()[0])
+                want = per_ref(float(make(kind, M).calcTheoreticalBER(s)), L)
+                got = float(ra.ravel()[0]) if name == 'PER' else 1.0 - float(ra.ravel()[0]) / math.log2(M)
+                if not abs(got - want) <= per_tol(want, L) + 4 * SLACK:
+                    return 'R16:two-roles:%s:%s' % (name, kind), 'snr = L = %r: PER %r, definition %r' % (L, got, want)
+        if not np.array_equal(x, v):
+            return 'R16:argument-modified:two-roles:' + kind, name
+    return None
+
+
+def o_refillfn(case):
+    """R16 for qfunc / dB2Linear: one argument buffer refilled in place between calls; temporaries; results kept"""
+    from pyphysim.util.conversion import dB2Linear
+    from pyphysim.util.misc import qfunc
+    fn, ref, tol = {'qfunc': (qfunc, Qf, cond_tol),
+                    'dB2Linear': (dB2Linear, lambda v: 10.0 ** (v / 10.0), lambda v: 8 * EPS * (2.0 + abs(v)))}[case['fn']]
+    shape = tuple(case['shape'])
+    buf = alloc(shape, 'float64', case.get('layout', 'own'))
+    kept = []
+    for k, st in enumerate(case['history']):
+        fill = np.array(st['fill'], dtype=float).reshape(shape)
+        if st.get('arg', 'buffer') == 'temp':
+            x = np.array(fill)
+        else:
+            buf[...] = fill
+            x = buf
+        contents = np.array(x, copy=True)
+        r = fn(x)
+        ra = np.asarray(r, dtype=float)
+        if ra.shape != contents.shape:
+            return 'R16:%s:shape' % case['fn'], 'call %d' % k
+        for s, v in zip(contents.ravel().tolist(), ra.ravel().tolist()):
+            if not tight(v, ref(s), tol(s)):
+                return 'R16:%s:result-not-of-current-contents' % case['fn'], 'call %d: %s(%r)=%r, expected %r' % (
+                    k, case['fn'], s, v, ref(s))
+        if not np.array_equal(x, contents):
+            return 'R16:%s:argument-modified' % case['fn'], 'call %d' % k
+        if isinstance(r, np.ndarray) and (np.shares_memory(r, x) or any(
+                isinstance(o, np.ndarray) and np.shares_memory(r, o) for o, _ in kept)):
+            return 'R16:%s:result-aliases' % case['fn'], 'call %d' % k
+        kept.append((r, np.array(ra, copy=True)))
+        if st.get('arg', 'buffer') == 'temp':
+            del x
+        else:
+            buf[...] = 7.0
+        for j, (old, snap) in enumerate(kept):
+            if not np.array_equal(np.asarray(old, dtype=float), snap):
+                return 'R16:%s:earlier-result-changed' % case['fn'], 'result of call %d changed after call %d' % (j, k)
+    return None
+
+
+ORACLES = {'close': o_close, 'closefn': o_closefn, 'refill': o_refill, 'roles': o_roles, 'refillfn': o_refillfn,
+           'offsets': o_offsets, 'calls': o_calls, 'curves': o_curve, 'limit': o_limit, 'qfunc': o_qfunc}
 
 
 def run_oracle(ctx, call, case, key=None):
@@ -298,8 +698,10 @@ def correspondence(ctx, psk_max, qam_max, snrs, lengths):
             se = float(m.calcTheoreticalSpectralEfficiency(snrs[i], L))
             mper = core.s2f(drv.ask(['per %s %d' % (core.f2s(float(ber[i])), L)])[0])
             mse = core.s2f(drv.ask(['se %s %s' % (core.f2s(math.log2(M)), core.f2s(mper))])[0])
-            # 1-(1-BER)^L cancels for tiny BER: both sides carry an absolute rounding error of a few ulp of 1
-            ok = (rel_close(per, mper, 1e-9) or abs(per - mper) <= 4 * SLACK) and rel_close(se, mse, 1e-9)
+            # 1-(1-BER)^L cancels for tiny BER, and (1-BER)^L is L roundings in the model (repeated product) and
+            # a pow call in numpy: each side carries an absolute rounding error of up to about (L+2) 2^-53
+            # (thorough, seed 2: L = 10^4, PER = 4.2e-7, the two sides 8.7e-14 apart)
+            ok = (rel_close(per, mper, 1e-9) or abs(per - mper) <= (L + 2.0) * SLACK) and rel_close(se, mse, 1e-9)
             ctx.corr('PER/SE.' + kind, {'M': M, 'snr': snrs[i], 'L': L}, 'match' if ok else (per, se),
                      'match' if ok else (mper, mse), key=('per', kind, M, L))
         se0 = float(m.calcTheoreticalSpectralEfficiency(snrs[0]))
@@ -319,23 +721,336 @@ def correspondence(ctx, psk_max, qam_max, snrs, lengths):
                      'match' if ok else a, key=('argd', kind, M))
 
 
+def model_rates_batch(drv, reqs):
+    """reqs: [(kind, M, [snr...])] -> per request a list of (SER, BER, Q-argument) of the Lean model (Float):
+    coefficient and argument from the driver, Q from math.erfc, the QAM square from the driver's `qamser`.
+    One driver round trip for all coefficient lines, one for all QAM squares."""
+    lines = []
+    for kind, M, svals in reqs:
+        if kind == 'BPSK':
+            lines += ['bpsk %s' % core.f2s(s) for s in svals]
+        elif kind in ('PSK', 'QPSK'):
+            lines += ['psk %d %s' % (M, core.f2s(s)) for s in svals]
+        else:
+            lines += ['qam %d %s' % (M, core.f2s(s)) for s in svals]
+    out = iter(drv.ask(lines))
+    cas = [[parse_ca(next(out)) for _ in svals] for _, _, svals in reqs]
+    qlines = ['qamser %s' % core.f2s(c * Qf(a)) for (kind, _, _), ca in zip(reqs, cas) if kind == 'QAM' for c, a in ca]
+    qout = iter(drv.ask(qlines))
+    res = []
+    for (kind, M, svals), ca in zip(reqs, cas):
+        k = kbits(M)
+        if kind == 'QAM':
+            res.append([(core.s2f(next(qout)), 2.0 * (c * Qf(a)) / k, a) for c, a in ca])
+        elif kind == 'BPSK':
+            res.append([(c * Qf(a), c * Qf(a), a) for c, a in ca])
+        else:
+            res.append([(c * Qf(a), 1.0 / k * (c * Qf(a)), a) for c, a in ca])
+    return res
+
+
+def model_per_batch(drv, reqs):
+    """reqs: [([ber...], L)] -> per request the model's 1-(1-ber)^L for each ber (one driver round trip)"""
+    out = iter(drv.ask(['per %s %d' % (core.f2s(b), L) for bers, L in reqs for b in bers]))
+    return [[core.s2f(next(out)) for _ in bers] for bers, L in reqs]
+
+
+def near(a, b):
+    """what np.isclose with its defaults calls equal"""
+    return abs(a - b) <= 1e-8 + 1e-5 * abs(b)
+
+
+def corr_close(ctx, drv, cases):
+    """R15 correspondence: the model is a function of the exact SNR value -- close-but-distinct values, as
+    scalars in sequence and as one array on a long-lived object, against the model's value for each of them;
+    values the model tells apart (strictly antitone, Properties/C16Robust.lean) are told apart by the code"""
+    rates = model_rates_batch(drv, [(c['kind'], c['M'], [float(v) for v in c['snr']]) for c in cases])
+    lreq, lidx = [], []
+    for ci, case in enumerate(cases):
+        for L in case.get('corr_lengths', []):
+            lreq.append(([r[1] for r in rates[ci]], L))
+            lidx.append((ci, L))
+    mpers = dict(zip(lidx, model_per_batch(drv, lreq)))
+    for ci, case in enumerate(cases):
+        kind, M = case['kind'], case['M']
+        vals = [float(v) for v in case['snr']]
+        mr = rates[ci]
+        m = make(kind, M)
+        sc = [(float(m.calcTheoreticalSER(s)), float(m.calcTheoreticalBER(s))) for s in vals]
+        ar = list(zip(np.asarray(m.calcTheoreticalSER(np.array(vals)), dtype=float).tolist(),
+                      np.asarray(m.calcTheoreticalBER(np.array(vals)), dtype=float).tolist()))
+        extra = 4 * SLACK if kind == 'QAM' else 0.0
+        for i, s in enumerate(vals):
+            ms, mb, a = mr[i]
+            for tag, (vs, vb) in (('scalar', sc[i]), ('array', ar[i])):
+                ok = (tight(vs, ms, cond_tol(a)) or abs(vs - ms) <= extra) and tight(vb, mb, cond_tol(a))
+                ctx.corr('R15.close-snr.%s.%s' % (tag, kind), {'M': M, 'snr': s, 'cluster': [v for v in vals if near(v, s)]},
+                         'match' if ok else 'ser=%r ber=%r' % (vs, vb), 'match' if ok else 'ser=%r ber=%r' % (ms, mb),
+                         key=('r15', kind, M, tag, i, s))
+            for j in range(i):
+                (mj, _, aj), sj = mr[j], vals[j]
+                if near(s, sj) and min(mj, ms) > 1e-290 and \
+                        abs(mj - ms) > 4 * max(cond_tol(a), cond_tol(aj)) * max(mj, ms) + 2 * extra:
+                    ok = (sc[i][0] < sc[j][0]) == (s > sj) and (ar[i][0] < ar[j][0]) == (s > sj)
+                    ctx.corr('R15.strict-order.' + kind, {'M': M, 'snr': [sj, s]}, 'match' if ok else (sc[j][0], sc[i][0]),
+                             'match' if ok else 'strictly %s' % ('smaller' if s > sj else 'larger'),
+                             key=('r15ord', kind, M, i, j, s))
+                    ctx.branch('corr:R15:close-values-told-apart')
+        ctx.branch('corr:R15:close-but-distinct-snr')
+        bits = math.log2(M)
+        for L in case.get('corr_lengths', []):
+            per = np.asarray(m.calcTheoreticalPER(np.array(vals), L), dtype=float)
+            se = np.asarray(m.calcTheoreticalSpectralEfficiency(np.array(vals), L), dtype=float)
+            mper = mpers[(ci, L)]
+            for i, s in enumerate(vals):
+                slack = 1e-9 * abs(mper[i]) + (L + 2.0) * SLACK
+                ok = abs(per[i] - mper[i]) <= slack and abs(se[i] - bits * (1.0 - mper[i])) <= bits * slack
+                ctx.corr('R15.close-length.' + kind, {'M': M, 'snr': s, 'L': L}, 'match' if ok else (per[i], se[i]),
+                         'match' if ok else (mper[i], bits * (1.0 - mper[i])), key=('r15len', kind, M, L, i))
+            ctx.branch('corr:R15:close-packet-lengths')
+
+
+def corr_refill(ctx, drv, cases):
+    """R16 correspondence: a history of calls on ONE modulator with ONE argument buffer refilled in place; the
+    model's answer for call k is the pure function of the contents at call k (Properties/C16Robust.lean).
+    All results are compared after the whole history has run: they must have stayed what they were."""
+    recs = []
+    for ci, case in enumerate(cases):
+        if case['dtype'] != 'float64':
+            continue
+        kind, M = case['kind'], case['M']
+        shape = tuple(case['shape'])
+        objs = [make(kind, M) for _ in range(case.get('objects', 1))]
+        buf = alloc(shape, 'float64', case.get('layout', 'own'))
+        for k, st in enumerate(case['history']):
+            fill = np.array(st['fill'], dtype=float).reshape(shape)
+            if st.get('arg', 'buffer') == 'temp':
+                x = np.array(fill)
+            else:
+                buf[...] = fill
+                x = buf
+            L = st.get('L', 1)
+            try:
+                r = CALLS[st['call']](objs[st.get('obj', 0) % len(objs)], x, L)
+            except Exception as e:
+                r = 'raised ' + type(e).__name__
+            recs.append((case, k, st, fill.ravel().tolist(), r, L))
+            if x is buf:
+                buf[...] = 33.0
+            del x
+        ctx.branch('corr:R16:argument-buffer-refilled-in-place')
+    rates = model_rates_batch(drv, [(c['kind'], c['M'], vals) for c, _, _, vals, _, _ in recs])
+    pidx = [i for i, rec in enumerate(recs) if rec[2]['call'] in ('PER', 'SE')]
+    mpers = dict(zip(pidx, model_per_batch(drv, [([r[1] for r in rates[i]], recs[i][5]) for i in pidx])))
+    for ri, (case, k, st, vals, r, L) in enumerate(recs):
+        kind, M = case['kind'], case['M']
+        bits = math.log2(M)
+        got = r if isinstance(r, str) else np.asarray(r, dtype=float).ravel().tolist()
+        for i, s in enumerate(vals):
+            ms, mb, a = rates[ri][i]
+            if isinstance(got, str) or len(got) != len(vals):
+                ok, want, g = False, '%d values' % len(vals), got
+            else:
+                g = got[i]
+                if st['call'] == 'SER':
+                    want = ms
+                    ok = tight(g, ms, cond_tol(a)) or abs(g - ms) <= (4 * SLACK if kind == 'QAM' else 0.0)
+                elif st['call'] == 'BER':
+                    want = mb
+                    ok = tight(g, mb, cond_tol(a))
+                elif st['call'] == 'SE0':
+                    want = bits * (1.0 - mb)
+                    ok = abs(g - want) <= bits * (cond_tol(a) * mb + 2 * SLACK)
+                else:
+                    mp = mpers[ri][i]
+                    want = mp if st['call'] == 'PER' else bits * (1.0 - mp)
+                    ok = abs(g - want) <= (bits if st['call'] == 'SE' else 1.0) * (1e-9 * abs(mp) + (L + 2.0) * SLACK)
+            ctx.corr('R16.refilled-buffer.%s.%s' % (st['call'], kind),
+                     {'M': M, 'call': k, 'snr': s, 'shape': case['shape'], 'history': case['history']},
+                     'match' if ok else g, 'match' if ok else want, key=('r16', kind, M, case.get('id'), k, i))
+
+
+# --------------------------------------------------------------- generators of the R15 / R16 cases
+R_MODS = (1 << 10, 4 ** 5)
+BASES = [0.0, -29.9, -10.0, 0.3, 3.0, 10.0, 20.0, 36.6, 59.9]
+CLOSE_LENGTHS = [1000, 1001, 10 ** 6, 10 ** 6 + 1]
+
+
+def gen_close(ctx, quick):
+    """one case per (modulator, base value): the base and its close-but-distinct neighbours, in shuffled order"""
+    out = []
+    for kind, M in mods(*R_MODS):
+        bases = BASES + [0.1 + 0.2] + [ctx.rng.uniform(-29, 59) for _ in range(4 if quick else 40)]
+        for b in bases:
+            vals = close_cluster(b)
+            ctx.rng.shuffle(vals)
+            case = {'kind': kind, 'M': M, 'snr': vals}
+            if b in (3.0, 10.0, 20.0, 36.6):
+                case['lengths'] = CLOSE_LENGTHS
+            if M <= 16:
+                case['fresh_each'] = True
+            out.append(case)
+    return out
+
+
+def gen_closefn(ctx, quick):
+    out = []
+    for fn, bases in (('qfunc', [0.0, 0.3, 1.0, 2.5, 5.0, 10.0, 20.0, 36.0, -3.0]),
+                      ('dB2Linear', [0.0, 0.3, 3.0, 10.0, -30.0, 60.0, 120.0, -140.0])):
+        for b in bases + [ctx.rng.uniform(-6, 36) for _ in range(2 if quick else 20)]:
+            xs = close_cluster(b)
+            ctx.rng.shuffle(xs)
+            out.append({'fn': fn, 'x': xs})
+    return out
+
+
+def fills(ctx, dt, n):
+    if dt == 'int64':
+        return [float(ctx.rng.randint(-30, 60)) for _ in range(n)]
+    if dt == 'float32':
+        return [float(np.float32(ctx.rng.uniform(-30, 60))) for _ in range(n)]
+    return [ctx.rng.uniform(-30, 60) for _ in range(n)]
+
+
+def gen_refill(ctx, quick):
+    """histories of 2..4 calls per modulator: the deterministic scenario set (every call kind, element type,
+    0-d / 1-d / 2-d / strided buffer, one and two modulators, buffer and temporaries) + seeded random ones"""
+    plans = [
+        ('float64', [4], 'own', 1, [('SER', 'buffer'), ('SER', 'buffer'), ('BER', 'buffer'), ('SER', 'buffer')]),
+        ('float64', [2, 3], 'view', 2, [('BER', 'buffer'), ('PER', 'buffer'), ('SE', 'buffer'), ('SE0', 'buffer')]),
+        ('float64', [], 'own', 1, [('SER', 'buffer'), ('SER', 'buffer'), ('BER', 'buffer')]),
+        ('int64', [3], 'own', 1, [('SER', 'buffer'), ('PER', 'buffer'), ('SER', 'buffer')]),
+        ('float32', [5], 'view', 1, [('BER', 'buffer'), ('BER', 'buffer'), ('SE0', 'buffer')]),
+        ('float64', [4], 'own', 1, [('SER', 'temp'), ('SER', 'temp'), ('BER', 'temp'), ('BER', 'temp')]),
+        ('float64', [6], 'own', 2, [('PER', 'buffer'), ('PER', 'temp'), ('PER', 'buffer'), ('SE', 'buffer')]),
+    ]
+    out = []
+    for kind, M in mods(*R_MODS):
+        todo = list(plans)
+        for _ in range(3 if quick else 40):
+            dt = ctx.rng.choice(['float64', 'float64', 'int64', 'float32'])
+            shape = ctx.rng.choice([[], [1], [3], [7], [2, 2], [3, 1, 2]])
+            todo.append((dt, shape, ctx.rng.choice(['own', 'view']), ctx.rng.choice([1, 2]),
+                         [(ctx.rng.choice(['SER', 'BER', 'PER', 'SE', 'SE0']), ctx.rng.choice(['buffer', 'buffer', 'temp']))
+                          for _ in range(ctx.rng.randint(2, 4))]))
+        for pi, (dt, shape, layout, nobj, calls) in enumerate(todo):
+            n = int(np.prod(shape)) if shape else 1
+            hist = []
+            for ci, (call, arg) in enumerate(calls):
+                st = {'call': call, 'arg': arg, 'fill': fills(ctx, dt, n), 'obj': ci % nobj}
+                if call in ('PER', 'SE'):
+                    st['L'] = ctx.rng.choice([1, 7, 100, 1000])
+                hist.append(st)
+            out.append({'kind': kind, 'M': M, 'dtype': dt, 'shape': shape, 'layout': layout, 'objects': nobj,
+                        'history': hist, 'id': pi})
+    return out
+
+
+def gen_roles(ctx, quick):
+    out = []
+    for kind, M in mods(*R_MODS):
+        for dt, shape, vals in (('int64', [], [7]), ('int64', [1], [12]), ('int64', [4], [1, 5, 10, 20]), ('float64', [], [5.0]),
+                                ('int32', [], [ctx.rng.randint(1, 30)])):
+            out.append({'kind': kind, 'M': M, 'dtype': dt, 'shape': shape, 'values': vals})
+    return out
+
+
+def gen_refillfn(ctx, quick):
+    out = []
+    for fn, lo, hi in (('qfunc', -6.0, 36.0), ('dB2Linear', -140.0, 120.0)):
+        for shape, layout, args in (([5], 'own', ['buffer'] * 4), ([2, 2], 'view', ['buffer', 'temp', 'buffer']),
+                                    ([], 'own', ['buffer'] * 3), ([3], 'own', ['temp'] * 4)):
+            n = int(np.prod(shape)) if shape else 1
+            for _ in range(1 if quick else 10):
+                out.append({'fn': fn, 'shape': shape, 'layout': layout,
+                            'history': [{'arg': a, 'fill': [ctx.rng.uniform(lo, hi) for _ in range(n)]} for a in args]})
+    return out
+
+
+R_BRANCHES = ['R15:close-but-distinct-snr', 'R15:close-values-told-apart', 'R15:close-packet-lengths',
+              'R15:close-packet-lengths-told-apart',
+              'R15:close-arguments-of-qfunc-dB2Linear', 'R15:close-phase-offsets',
+              'R16:argument-buffer-refilled-in-place', 'R16:temporary-argument-id-reused',
+              'R16:one-array-in-two-roles', 'R16:function-argument-buffer-refilled']
+R_CORR_BRANCHES = ['corr:R15:close-but-distinct-snr', 'corr:R15:close-values-told-apart', 'corr:R15:close-packet-lengths',
+                   'corr:R16:argument-buffer-refilled-in-place']
+
+
+def robustness(ctx, quick, with_corr=True):
+    """classes R15 (distinct values that are merely close) and R16 (argument identity / buffer reuse)"""
+    close = gen_close(ctx, quick)
+    refill = gen_refill(ctx, quick)
+    if with_corr:
+        try:
+            drv = core.Driver(DRIVER)
+            per_mod = {}
+            for c in close:     # one model request per modulator: all its clusters
+                e = per_mod.setdefault((c['kind'], c['M']), {'kind': c['kind'], 'M': c['M'], 'snr': [], 'corr_lengths': [1000, 1001]})
+                e['snr'] += c['snr']
+            corr_close(ctx, drv, list(per_mod.values()))
+            corr_refill(ctx, drv, refill)
+        except core.Infra as e:
+            if not ctx.broken:
+                raise
+            ctx.notes.append('R15/R16 correspondence skipped: %s' % e)
+    for c in close:
+        run_oracle(ctx, 'close', c, key=('close', c['kind'], c['M'], c['snr'][0]))
+        ctx.branch('R15:close-but-distinct-snr')
+        if separated(c):
+            ctx.branch('R15:close-values-told-apart')
+        if 'lengths' in c:
+            ctx.branch('R15:close-packet-lengths')
+            if separated_lengths(c):
+                ctx.branch('R15:close-packet-lengths-told-apart')
+    for c in gen_closefn(ctx, quick):
+        run_oracle(ctx, 'closefn', c, key=('closefn', c['fn'], c['x'][0]))
+        ctx.branch('R15:close-arguments-of-qfunc-dB2Linear')
+    for M in (2, 8, 64):
+        offs = [0.3, 0.1 + 0.2, 0.3 + 1e-9, 1e-15, 1e-12, 1e-9, 0.0, math.pi / 8, math.pi / 8 * (1 + 1e-6), 2.4 * (1 + 4e-6), 2.4]
+        run_oracle(ctx, 'offsets', {'M': M, 'offsets': offs, 'snr': [-10.0, 0.0, 10.0, 20.0]}, key=('offsets-close', M))
+        ctx.branch('R15:close-phase-offsets')
+    for c in refill:
+        run_oracle(ctx, 'refill', c, key=('refill', c['kind'], c['M'], c['id']))
+        ctx.branch('R16:argument-buffer-refilled-in-place')
+        if any(st['arg'] == 'temp' for st in c['history']):
+            ctx.branch('R16:temporary-argument-id-reused')
+    for c in gen_roles(ctx, quick):
+        run_oracle(ctx, 'roles', c, key=('roles', c['kind'], c['M'], c['dtype'], tuple(c['shape'])))
+        ctx.branch('R16:one-array-in-two-roles')
+    for c in gen_refillfn(ctx, quick):
+        run_oracle(ctx, 'refillfn', c)
+        ctx.branch('R16:function-argument-buffer-refilled')
+
+
 def check(ctx):
     quick = ctx.tier == 'quick'
     ctx.rule = ('modulators BPSK, QPSK, PSK 2..2^10, QAM 4..4^k; SNR grid over [-30,60] dB plus seeded points, '
-                'scalar and array paths; packet lengths 1..10^4; non-trivial = distinct (formula, modulator, M, SNR index)')
+                'scalar and array paths; packet lengths 1..10^4; non-trivial = distinct (formula, modulator, M, SNR index). '
+                'R15: per modulator, clusters of close-but-distinct SNR values (adjacent doubles, +-1e-12..1e-8, relative '
+                '1e-6..1e-5, tiny magnitudes around 0 dB) at 14 (thorough 50) base points, as scalars in sequence on one object and in '
+                'one array; close packet lengths (L, L+1 at 10^3 and 10^6); close arguments of qfunc / dB2Linear; each '
+                'compared with the first-principles value for THAT value to 16 eps (4+arg^2) relative (the conditioning '
+                'of Q), pairs further apart than 4 tolerances counted as told apart. R16: per modulator 7 deterministic '
+                '+ 3 (thorough 40) seeded histories of 2..4 calls (SER/BER/PER/SE) on ONE argument array refilled in place / on '
+                'dropped temporaries, float64/int64/float32, 0-d..3-d, own or strided, one or two modulators; one '
+                'array as SNR and packet length; the same for qfunc / dB2Linear')
     psk_max, qam_max = (1 << 10, 4 ** 5) if quick else (1 << 12, 4 ** 6)
     n = 46 if quick else 361
     snrs = [-30.0 + 90.0 * i / (n - 1) for i in range(n)] + [ctx.rng.uniform(-30, 60) for _ in range(10)]
     lengths = [1, 2, 10, 1000] if quick else [1, 2, 3, 10, 100, 1000, 10000]
     core.prove(ctx, MODULE, generated=['C16Formulas'], drivers=[DRIVER], scratch=ctx.scratch)
-    ctx.required_branches = ['curve:BPSK', 'curve:PSK', 'curve:QAM', 'curve:QPSK']
+    prove_extra(ctx)
+    ctx.required_branches = ['curve:BPSK', 'curve:PSK', 'curve:QAM', 'curve:QPSK'] + R_BRANCHES + R_CORR_BRANCHES
     try:
         correspondence(ctx, psk_max, qam_max, snrs, lengths)
     except core.Infra as e:
         if not ctx.broken:
             raise
         ctx.notes.append('correspondence skipped: %s' % e)
-        ctx.required_branches = []
+        ctx.required_branches = list(R_BRANCHES)
+    robustness(ctx, quick)
+    if ctx.notes and any('R15/R16 correspondence skipped' in n for n in ctx.notes):
+        ctx.required_branches = [b for b in ctx.required_branches if b not in R_CORR_BRANCHES]
     for kind, M in mods(psk_max, qam_max):
         run_oracle(ctx, 'curves', {'kind': kind, 'M': M, 'snr': snrs, 'lengths': lengths}, key=('curves', kind, M))
         run_oracle(ctx, 'limit', {'kind': kind, 'M': M}, key=('limit', kind, M))
@@ -353,6 +1068,7 @@ def check(ctx):
 
 
 def search(ctx):
+    robustness(ctx, False, with_corr=False)
     snrs = [-30.0 + 0.05 * i for i in range(1801)]
     for kind, M in mods(1 << 12, 4 ** 6):
         run_oracle(ctx, 'curves', {'kind': kind, 'M': M, 'snr': snrs, 'lengths': [1, 7, 1000]})
